@@ -895,6 +895,28 @@ pub fn independent_origins_scenario(name: &str, depth: usize, extra: &[Op]) -> S
     }
 }
 
+/// Two replica instances on the SAME storage (two processes on one directory): both edit and commit, each sees the
+/// other's commits only through refresh / reload.
+pub fn shared_storage_scenario(name: &str, depth: usize, extra: &[Op]) -> Scenario {
+    let docs = vec![json!({"l♭":[x(), y()]}), json!({"l♭":[x2(), y()]}), json!({"l♭":[x(), y(), z()]}), json!({"l♭":[y()], "s":"t"})];
+    let mut alphabet = vec![Op::Upd(0, 1), Op::Upd(0, 2), Op::Upd(1, 2), Op::Upd(1, 3), Op::Commit(0, 0), Op::Commit(1, 0), Op::Commit(1, 1), Op::Refresh(0), Op::Refresh(1), Op::Reload(0), Op::Reopen(1), Op::Unstage(1)];
+    for k in 0..2 {
+        alphabet.push(Op::Resolve(0, 0, k));
+    }
+    alphabet.extend_from_slice(extra);
+    Scenario {
+        name: name.to_string(),
+        nrep: 2,
+        menu: menu(docs),
+        prologue: vec![Op::Upd(0, 0), Op::Commit(0, 0), Op::Attach(1, 0)],
+        alphabet,
+        key_opts: KeyOpts::default(),
+        max_depth: depth,
+        track: true,
+        order: None,
+    }
+}
+
 pub fn combo_scenarios(thorough: bool) -> Vec<Scenario> {
     let d = |q: usize, t: usize| if thorough { t } else { q };
     vec![
@@ -910,6 +932,7 @@ pub fn combo_scenarios(thorough: bool) -> Vec<Scenario> {
         idless_field_scenario("combo-idless-object-in-flattened-field", d(4, 5), &[]),
         nested_deleted_scenario("combo-outer-element-survives-inner-array-deleted", d(2, 3), &[]),
         independent_origins_scenario("combo-independent-origins", d(4, 5), &[]),
+        shared_storage_scenario("combo-two-instances-on-one-storage", d(4, 5), &[]),
     ]
 }
 
